@@ -328,13 +328,17 @@ Expected(T, ms, q) ==
       ai == q.ai
       js == SetAsSeq({1}) \o [k \in 1..Cardinality(mgs) |-> CHOOSE x \in mgs :
                                   Cardinality({y \in mgs : y < x}) = k - 1]
+  \* no index = the latest candle, "previous" = the one before it (C20: every way of asking agrees
+  \* with Hexital.reading / prev_reading and with the candle itself).  The library keeps an internal
+  \* cursor for this; the observed cursor q.ai is NOT consulted: a cursor left on an older candle
+  \* after a maintenance call is a finding.
   IN CASE q.w = "ind.reading" ->
-            IF q.i = 999999 THEN GetRef(cs[ai + 1], q.n) ELSE GetRef(cs[PyIdx(n, q.i)], q.n)
+            IF q.i = 999999 THEN GetRef(cs[n], q.n) ELSE GetRef(cs[PyIdx(n, q.i)], q.n)
        [] q.w = "ind.read_candle" -> GetRef(cs[PyIdx(n, q.i)], q.n)
-       [] q.w = "ind.prev_reading" -> IF n = 0 \/ ai = 0 THEN NoneV ELSE GetRef(cs[ai], q.n)
+       [] q.w = "ind.prev_reading" -> IF n <= 1 THEN NoneV ELSE GetRef(cs[n - 1], q.n)
        [] q.w = "ind.as_list" -> ListV([i \in 1..n |-> GetRef(cs[i], q.n)])
        [] q.w = "ind.has_reading" ->
-            IF n = 0 THEN BoolV(FALSE) ELSE BoolV(GetRef(cs[ai + 1], q.n).t # "n")
+            IF n = 0 THEN BoolV(FALSE) ELSE BoolV(GetRef(cs[n], q.n).t # "n")
        [] q.w = "ind.reading_count" -> IntV(TrailCount(cs, q.n, n))
        [] q.w = "hex.reading" -> HexReading(ms, js, q.n, q.i)
        [] q.w = "hex.prev_reading" -> HexReading(ms, js, q.n, -2)
